@@ -238,6 +238,12 @@ pub const JUNK: &[&str] = &[
     "p ~ p { color: #777777 }",
     "@supports (display: grid) { div { display: none } }",
     ".z { colour: red; frobnicate: 1px solid }",
+    // blocks with `;` inside, followed by a nested rule that would match the document if it leaked out
+    "@media print { .x { margin: 0; } .a { color: #010101 } p { display: none } }",
+    "@supports (display: grid) { div { margin: 0; padding: 1px; } p { display: none; } * { color: #020202 } }",
+    "@font-face { font-family: x; src: url(y); } ",
+    "@media screen and (max-width: 10px) { [x=\"a;b\"] { margin: 0; } li { color: #030303; } }",
+    "@page :first { margin: 1in; } ",
 ];
 
 pub fn sheet_to_css(sheet: &Sheet, v: &Variant) -> String {
